@@ -264,6 +264,29 @@ def validate_trace(ctx, module, cfg, tracefile, *, timeout=600, name=None, deque
     return r
 
 
+def apalache_inductive(ctx, module, *, cinit, init, ind_init, ind_inv, goal, timeout=300):
+    """Inductive-invariant argument with Apalache (unbounded integers): Init => IndInv, IndInv /\ Next => IndInv',
+    IndInv => goal.  Returns False (with a note) when Apalache is not installed; a refuted step is a machinery failure
+    (the argument is about the model, the code is judged elsewhere)."""
+    exe = shutil.which("apalache-mc")
+    if not exe:
+        ctx.notes.append("apalache-mc not found: the inductive argument for %s was skipped" % module)
+        return False
+    d = ctx.sub("apalache." + module)
+    shutil.copy(os.path.join(SPECS, module + ".tla"), d)
+    steps = [("base", init, ind_inv, 0), ("step", ind_init, ind_inv, 1), ("goal", ind_init, goal, 0)]
+    for name, i, inv, length in steps:
+        cmd = [exe, "check", "--cinit=" + cinit, "--init=" + i, "--inv=" + inv, "--length=%d" % length,
+               "--out-dir=" + os.path.join(d, "out"), module + ".tla"]
+        rc, out = run(ctx, cmd, timeout, cwd=d, outfile=os.path.join(d, "apalache.%s.out" % name))
+        if rc != 0 or "EXITCODE: OK" not in out:
+            raise MachineryError("Apalache: %s of the inductive argument for %s failed (%s => %s, length %d):\n%s"
+                                 % (name, module, i, inv, length, "\n".join(out.splitlines()[-25:])))
+    ctx.log("Apalache %s: Init => %s, %s /\\ Next => %s', %s => %s: all proved" % (module, ind_inv, ind_inv, ind_inv, ind_inv, goal))
+    ctx.notes.append("Apalache: %s is an inductive invariant of %s.tla and implies %s (unbounded number of queued tasks, 3 producers)" % (ind_inv, module, goal))
+    return True
+
+
 def have_strace():
     """strace present and allowed to attach (ptrace) to a child of ours?"""
     global _STRACE
